@@ -8,6 +8,6 @@ trap 'rm -rf $W' EXIT
 echo "=== $(date +%T) mutation $P (thorough tier)" >> "$OUT"
 cd /verif
 VERIF_REPO=$W timeout 5400 ./check "$C" --tier thorough --no-evidence --only "$ONLY" > $W.log 2>&1; rc=$?
-echo "--- check $C:$ONLY (thorough) rc=$rc" >> "$OUT"
+echo "--- check $C:$ONLY@thorough rc=$rc" >> "$OUT"
 grep -E "VIOLATION|violated:|INCONCLUSIVE|KNOWN-FINDING|tier=" $W.log | cut -c1-400 >> "$OUT"
 rm -f $W.log
